@@ -52,7 +52,7 @@ func runC14(c *vf.Case) {
 	w.LostCheck = false
 	limit := sonic.MaxCallbackDispatch
 	mix := r.Intn(4) // 0: single object, else mixed
-	kinds := []string{"tcp-read", "tcp-write", "fifo-read", "fifo-write", "file-read", "file-write", "accept", "udp-readfrom", "udp-writeto", "mcast-read", "mcast-write"}
+	kinds := []string{"tcp-read", "tcp-write", "fifo-read", "fifo-write", "file-read", "file-write", "accept", "udp-readfrom", "udp-writeto", "mcast-read", "mcast-write", "connudp-readall"}
 	var chosen []string
 	if mix == 0 {
 		chosen = []string{kinds[r.Intn(len(kinds))]}
@@ -105,6 +105,26 @@ func runC14(c *vf.Case) {
 					c.Count("connections_that_carried_a_large_write_before_the_chain", 1)
 				}
 			}
+		case "connudp-readall":
+			// a connected datagram socket behind the stream interface, 200 small datagrams queued: every read-all of the
+			// chain takes four successful reads in a row (one datagram each) and never meets would-block
+			o, err := w.NewObj(sim.KConnUDP, false)
+			if err != nil {
+				c.Failf("harness-setup", "%v", err)
+				return
+			}
+			s.o = o
+			sa, err := syscall.Getsockname(o.Raw)
+			if err != nil {
+				c.Failf("harness-setup", "%v", err)
+				return
+			}
+			for i := 0; i < 200; i++ {
+				d := make([]byte, 8)
+				vf.GenFill(d, s.gen, i*8)
+				_ = syscall.Sendto(o.Peer, d, 0, sa)
+			}
+			s.left = 50
 		case "fifo-read":
 			o, err := w.NewObj(sim.KFifoR, false)
 			if err != nil {
@@ -355,6 +375,17 @@ func runC14(c *vf.Case) {
 				finish(s, op.Started, prevKind)
 			}
 			w.StartStream(s.o, 0, false, size, sim.BNone, nil, false)
+		case "connudp-readall":
+			w.NextOnDone = func(op *sim.Op) {
+				noteDepth(false)
+				checkStream(op, true)
+				if !c.Failed() && op.N != 32 {
+					c.Failf("deferred-hop-result-differs/connudp-readall", "read-all of 32 bytes over queued 8-byte datagrams completed with n=%d err=%v", op.N, op.Err)
+					return
+				}
+				finish(s, op.Started, prevKind)
+			}
+			w.StartStream(s.o, 0, true, 32, sim.BNone, nil, false)
 		case "tcp-write", "fifo-write", "file-write":
 			size := r.Range(1, 8)
 			if r.Chance(1, 12) && s.kind != "file-write" {
